@@ -1,6 +1,7 @@
 import Skglm.Driver.Ops
 import Skglm.Driver.OpsDatafit
 import Skglm.Driver.OpsCD
+import Skglm.Driver.OpsValidate
 open Skglm Skglm.Proto
 
 def answer (line : String) : String :=
@@ -8,7 +9,7 @@ def answer (line : String) : String :=
   match toks with
   | [] => "err:empty"
   | op :: args =>
-    match (Skglm.Ops.penOps op <|> Skglm.Ops.dfOps op <|> Skglm.Ops.blkOps op <|> Skglm.Ops.cdOps op) with
+    match (Skglm.Ops.penOps op <|> Skglm.Ops.dfOps op <|> Skglm.Ops.blkOps op <|> Skglm.Ops.cdOps op <|> Skglm.Ops.valOps op) with
     | none => s!"err:unknown-op:{op}"
     | some p =>
       match p.run args with
